@@ -185,7 +185,9 @@ def run_property(pid, tier="quick", seed=0, only=None, verbose=False):
     #      workers return SMT-LIB text) -------------------------------------------------------------
     all_contracts = getattr(mod, "CONTRACTS", [])
     idx = [all_contracts.index(c) for c in contracts]
+    t_explore = time.time()
     explored = _explore_parallel(pid, idx)
+    t_explore = time.time() - t_explore
     for c, ex in zip(contracts, explored):
         if ex.get("extract_error"):
             undecided.append({"contract": c.id, "reason": f"extract: {ex['extract_error']}"})
@@ -233,7 +235,9 @@ def run_property(pid, tier="quick", seed=0, only=None, verbose=False):
             meta[name] = {"contract": lem, "ob": ob, "descr": f"{lem.descr}: {lname}", "line": None, "kind": "lemma"}
             jobs.append((name, ob.smt2(), timeout_ms))
 
+    t_solve = time.time()
     results = solve_all(jobs)
+    t_solve = time.time() - t_solve
     by_name = {r["name"]: r for r in results}
 
     discharged = []
@@ -438,6 +442,8 @@ def run_property(pid, tier="quick", seed=0, only=None, verbose=False):
         "trusted_base": TRUSTED_BASE + list(getattr(mod, "TRUSTED", [])),
         "backends": backends,
         "solver_seconds": round(solver_s, 3),
+        "wall_explore_s": round(t_explore, 2),
+        "wall_discharge_s": round(t_solve, 2),
         "trivially_true_after_simplification": trivial_count,
         "functions_under_contract": functions,
         "refuted": [{"obligation": r["name"], "descr": short(r["descr"], 200)} for r in refuted],
